@@ -135,3 +135,174 @@ def stdlib_modules(limit, max_bytes=60000):
         if len(out) >= limit:
             break
     return out
+
+
+# ------------------------------------------------------------------------------------------------
+# slot products: every position of a statement that holds an expression (or a subscript index) x
+# every expression kind with a placement restriction in Python's grammar/compiler (assignment
+# expressions, lambdas containing them, comprehensions, slices, starred items, multi-line strings),
+# at module / function / class level.  The converter moves expressions into comprehension
+# iterables, lambda bodies, call arguments and __setitem__/slice(...) calls: each such move is
+# legal only for some expression kinds.
+# ------------------------------------------------------------------------------------------------
+EXPR_SLOTS = {
+    "call_arg": "f(X)\n",
+    "kwarg_value": "f(k=X)\n",
+    "star_arg": "f(*X)\n",
+    "dstar_arg": "f(**X)\n",
+    "lambda_body": "g = lambda: X\n",
+    "comp_elt": "l = [X for i in r]\n",
+    "comp_cond": "l = [i for i in r if X]\n",
+    "comp_iter_inner": "l = [i for j in r for i in (lambda: X)()]\n",
+    "default": "def h(p=X):\n    pass\n",
+    "kwdefault": "def h(*, p=X):\n    pass\n",
+    "decorator": "@X\ndef h():\n    pass\n",
+    "class_decorator": "@X\nclass A:\n    pass\n",
+    "base": "class A(X):\n    pass\n",
+    "class_kw": "class A(k=X):\n    pass\n",
+    "fstring_field": "s = f'{X}'\n",
+    "fstring_spec": "s = f'{a:{X}}'\n",
+    "assign_value": "x = X\n",
+    "chained_assign_value": "x = y = X\n",
+    "destructure_value": "x, *y = X\n",
+    "ann_value": "x: int = X\n",
+    "aug_value": "x += X\n",
+    "aug_sub_value": "d[0] += X\n",
+    "aug_attr_value": "o.a += X\n",
+    "expr_stmt": "X\n",
+    "if_test": "if X:\n    pass\n",
+    "elif_test": "if a:\n    pass\nelif X:\n    x = 1\nelse:\n    x = 2\n",
+    "if_test_in_loop": "for i in r:\n    if X:\n        break\n    x = 1\n",
+    "while_test": "while X:\n    x = 1\n",
+    "while_test_break": "while X:\n    if a:\n        break\n    x = 1\nelse:\n    x = 2\n",
+    "for_iter": "for i in X:\n    pass\n",
+    "for_iter_break": "for i in X:\n    if a:\n        break\n    x = 1\nelse:\n    x = 2\n",
+    "for_iter_nested": "for j in r:\n    for i in X:\n        if a:\n            continue\n        x = 1\n",
+    "for_body_value": "for i in r:\n    x = X\n",
+    "while_body_value": "while a:\n    x = X\n    if b:\n        break\n",
+    "subscript_target_index": "d[X] = 1\n",
+    "subscript_target_object": "(X)[0] = 1\n",
+    "attribute_target_object": "(X).a = 1\n",
+    "slice_target_lower": "d[X:2] = []\n",
+    "slice_target_step": "d[::X] = []\n",
+    "tuple_target_index": "d[X], e = 1, 2\n",
+    "chained_target_index": "x = d[X] = 1\n",
+    "aug_target_index": "d[X] += 1\n",
+    "aug_target_slice": "d[X:] += []\n",
+    "aug_target_object": "(X).a += 1\n",
+    "for_target_index": "for d[X] in r:\n    pass\n",
+    "for_target_object": "for (X).a in r:\n    pass\n",
+    "dict_value": "x = {1: X}\n",
+    "dict_key": "x = {X: 1}\n",
+    "set_display": "x = {X, 1}\n",
+    "list_display": "x = [X, 1]\n",
+    "walrus_value": "(w := X)\n",
+    "ifexp_test": "v = b if X else c\n",
+    "ifexp_body": "v = X if a else c\n",
+    "boolop": "v = a and X or b\n",
+    "compare": "v = a < X < b\n",
+    "subscript_load": "v = d[X]\n",
+    "slice_load": "v = d[X:2]\n",
+    "attribute_load": "v = (X).real\n",
+    "nested_lambda_default": "g = lambda p=lambda: X: p\n",
+    "return_value": "def h():\n    return X\n",
+    "return_value_in_loop": "def h():\n    for i in r:\n        if a:\n            return X\n        x = 1\n    return 0\n",
+    "method_default": "class A:\n    def m(self, p=X):\n        pass\n",
+    "method_body": "class A:\n    def m(self):\n        x = X\n        return x\n",
+    "global_store_value": "def h():\n    global gg\n    gg = X\n",
+    "nonlocal_store_value": "def h():\n    t = 0\n    def k():\n        nonlocal t\n        t = X\n    k()\n",
+    "import_then": "import os.path\nx = X\n",
+}
+EXPR_FILLERS = {
+    "name": "a",
+    "walrus": "(t := a)",
+    "walrus_in_call": "f(t := a)",
+    "lambda_walrus_body": "(lambda v: (t := v) + t)(a)",
+    "lambda_walrus_default": "(lambda v=(t := a): v)()",
+    "lambda_plain": "lambda: a",
+    "comp_walrus_cond": "[q for q in r if (t := q)]",
+    "comp_lambda_walrus": "[(lambda: (t := q))() for q in r]",
+    "comp_nested": "[[p for p in q] for q in r]",
+    "genexp": "(q for q in r)",
+    "dictcomp": "{q: q for q in r}",
+    "fstring_nested": "f'{a!r:>{b}}'",
+    "multiline_str": "'''x\ny'''",
+    "multiline_fstr": "f'''{a}\n'''",
+    "ifexp": "a if b else c",
+    "ext_slice_load": "a[1:2, ::3]",
+    "slice_walrus": "a[(t := 1):]",
+    "ellipsis_sub": "a[..., 0]",
+    "dict_unpack": "{**a, 'k': 1}",
+    "star_list": "[*a, *b]",
+    "star_tuple": "(*a, b)",
+    "neg_const": "-1",
+    "attr_chain": "a.b.c",
+    "boolop_walrus": "a and (t := b)",
+    "tuple": "(a, b)",
+    "compare_walrus": "a < (t := b) < c",
+    "call_star": "f(*a, **b)",
+    "not_in": "a not in b",
+    "await_free_yield_free_paren_lambda": "(lambda: (yield))",
+    "string_join": "'a' 'b'",
+    "bytes": "b'\\n'",
+    "complex": "1j",
+    "matmul": "a @ b",
+    "power_neg": "(-a) ** -b",
+}
+INDEX_SLOTS = {
+    "store": "d[I] = 1\n",
+    "store_attr_obj": "o.a[I] = 1\n",
+    "store_call_obj": "f()[I] = 1\n",
+    "aug": "d[I] += 1\n",
+    "aug_call_obj": "f()[I] += 1\n",
+    "for_target": "for d[I] in r:\n    pass\n",
+    "for_target_break": "for d[I] in r:\n    if a:\n        break\n    x = 1\n",
+    "tuple_target": "d[I], e = 1, 2\n",
+    "starred_target": "*d[I], e = 1, 2\n",
+    "chained": "x = d[I] = 1\n",
+    "ann": "d[I]: int = 1\n",
+    "load": "v = d[I]\n",
+    "nested_store": "d[I][I] = 1\n",
+    "walrus_value_index": "(w := d[I])\n",
+}
+INDEX_FILLERS = {
+    "const": "0",
+    "slice": "1:2",
+    "slice_step": "::2",
+    "slice_names": "a:b:c",
+    "slice_walrus": "1:(t := 2)",
+    "ext_slice": "1:2, 0",
+    "ext_slice2": "1:2, ::3",
+    "ellipsis_slice": "..., 1:",
+    "tuple": "0, 1",
+    "walrus": "(t := 0)",
+    "starred": "*a, 0",
+    "starred_slice": "*a, 1:2",
+    "lambda": "lambda: 0",
+    "neg": "-1",
+    "call": "f(0)",
+    "nested_slice_in_tuple": "(1, 2), 3:4",
+}
+SLOT_PLACEMENTS = ("module", "function", "class")
+
+
+def _place(src, pl):
+    if pl == "module":
+        return src
+    ind = "".join("    " + l + "\n" for l in src.splitlines())
+    if pl == "function":
+        return "def outer():\n" + ind
+    return "class Outer:\n" + ind
+
+
+def slot_products():
+    """(descriptor, source) for every slot x filler x placement that CPython itself compiles"""
+    for pl in SLOT_PLACEMENTS:
+        for sn, s in EXPR_SLOTS.items():
+            for fn, f in EXPR_FILLERS.items():
+                src = _place(s.replace("X", f), pl)
+                yield "C02:slot:%s:%s:%s" % (pl, sn, fn), src
+        for sn, s in INDEX_SLOTS.items():
+            for fn, f in INDEX_FILLERS.items():
+                src = _place(s.replace("I", f), pl)
+                yield "C02:index:%s:%s:%s" % (pl, sn, fn), src
